@@ -607,6 +607,142 @@ Section Generic.
       destruct (if logform then geb (sub (pdf p) cur) (logf u) else geb (div (pdf p) cur) u); fin.
     - fin.
   Qed.
+  (* ---------------------------------------------------------------- histories of runs and edits *)
+  Notation apply_op := (apply_op R W add sub mul div logf ofnat trunc gtb geb is_zero logform fixed pdf inside rnd diff upd).
+  Notation run_ops := (run_ops R W add sub mul div logf ofnat trunc gtb geb is_zero logform fixed pdf inside rnd diff upd).
+
+  (* the books are coherent: one cached value per chain; when the cache is marked valid it holds the density
+     at the chains; every recorded probability is the density at the recorded sample *)
+  Definition coherent (st : dstate) : Prop :=
+    wf st /\ (pdf_ready R st = true -> pdfv R st = map pdf (chains R st)) /\ pdfh R st = map pdf (hist R st).
+
+  (* the only edit that can break coherence is the one by which the USER asserts the cached values *)
+  Definition honest (o : op R) (st : dstate) : Prop :=
+    match o with OpSetPdf vs => vs = map pdf (chains R st) | _ => True end.
+
+  Lemma run_empty nb nc st w : chains R st = [] -> run nb nc st w = (st, w, []).
+  Proof. intros E. unfold Dream.run. rewrite E. reflexivity. Qed.
+
+  Lemma apply_op_coherent o st w : coherent st -> honest o st -> coherent (fst (fst (apply_op o st w))).
+  Proof.
+    intros (Hwf & Hc & Hh) Ho. unfold coherent. destruct o as [nb nc|cs|f|vs| | | |k]; cbn [Dream.apply_op].
+    - assert (Ec : chains R st = [] \/ chains R st <> []) by (destruct (chains R st); [left; reflexivity|right; discriminate]).
+      destruct Ec as [Ec|Ec].
+      { rewrite run_empty by exact Ec. cbn [fst]. split; [exact Hwf|split; [exact Hc|exact Hh]]. }
+      pose proof (run_history_count nb nc st w Hwf) as Hcnt. cbv zeta in Hcnt. destruct Hcnt as (_ & Hwf' & _).
+      pose proof (run_pdf_consistent nb nc st w Hwf Hc) as Hp. cbv zeta in Hp.
+      destruct Hp as (Hp1 & new & E1 & E2).
+      destruct (Hp1 Ec) as [Hq1 _].
+      split; [exact Hwf'|split; [intros _; exact Hq1|]].
+      rewrite E1, E2, Hh, map_app. reflexivity.
+    - cbn [fst]. unfold Dream.set_state. destruct (same_shape R st cs); [|repeat split; assumption].
+      unfold wf in *. cbn. repeat split; try discriminate. exact Hh.
+    - cbn [fst]. unfold Dream.set_state_fn, wf in *. cbn. repeat split; try discriminate. exact Hh.
+    - cbn [fst]. unfold Dream.set_pdf_values. destruct (length vs =? length (chains R st)) eqn:El; [|repeat split; assumption].
+      apply Nat.eqb_eq in El. unfold wf in *. cbn. repeat split; auto.
+    - cbn [fst Dream.set_pdf_fn]. unfold wf in *. cbn. rewrite map_length. repeat split; auto.
+    - cbn [fst]. unfold Dream.clear_pdf, wf in *. cbn. repeat split; try discriminate. exact Hh.
+    - cbn [fst]. unfold Dream.clear_hist, wf in *. cbn. repeat split; auto.
+    - cbn [fst]. repeat split; assumption.
+  Qed.
+
+  (* the edits of a history are honest at the state in which they are applied *)
+  Fixpoint honest_ops (ops : list (op R)) (st : dstate) (w : W) : Prop :=
+    match ops with
+    | [] => True
+    | o :: r => honest o st /\ honest_ops r (fst (fst (apply_op o st w))) (snd (fst (apply_op o st w)))
+    end.
+
+  Lemma run_ops_coherent ops : forall st w, coherent st -> honest_ops ops st w ->
+    coherent (fst (fst (run_ops ops st w))).
+  Proof.
+    induction ops as [|o r IH]; intros st w Hc Hh; cbn [Dream.run_ops]; [exact Hc|].
+    destruct Hh as [Ho Hr].
+    pose proof (apply_op_coherent o st w Hc Ho) as H1.
+    destruct (apply_op o st w) as [[st1 w1] e1]. cbn [fst snd] in *.
+    specialize (IH st1 w1 H1 Hr). destruct (run_ops r st1 w1) as [[st2 w2] e2]. exact IH.
+  Qed.
+
+  (* histories in which the user never asserts cached values are honest *)
+  Definition no_assert (o : op R) : Prop := match o with OpSetPdf _ => False | _ => True end.
+
+  Lemma no_assert_honest ops : Forall no_assert ops -> forall st w, honest_ops ops st w.
+  Proof.
+    induction 1 as [|o r Ho _ IH]; intros st w; cbn [honest_ops]; [exact I|].
+    split; [destruct o; try exact I; destruct Ho|apply IH].
+  Qed.
+
+  (* ... and the domain: every chain and every recorded sample is inside, as long as the edits put the chains inside *)
+  Definition indom (st : dstate) : Prop :=
+    wf st /\ Forall (fun x => inside x = true) (chains R st) /\ Forall (fun x => inside x = true) (hist R st).
+
+  Definition edit_inside (o : op R) (st : dstate) : Prop :=
+    match o with
+    | OpSetState cs => Forall (fun x => inside x = true) cs
+    | OpSetStateFn f => Forall (fun x => inside x = true) (map f (chains R st))
+    | _ => True
+    end.
+
+  Lemma apply_op_indom o st w : indom st -> edit_inside o st -> indom (fst (fst (apply_op o st w))).
+  Proof.
+    intros (Hwf & Hc & Hh) Ho. unfold indom. destruct o as [nb nc|cs|f|vs| | | |k]; cbn [Dream.apply_op].
+    - pose proof (run_history_count nb nc st w Hwf) as Hcnt. cbv zeta in Hcnt. destruct Hcnt as (_ & Hwf' & _).
+      pose proof (run_history_in_domain nb nc st w Hwf Hc) as Hp. cbv zeta in Hp.
+      destruct Hp as (Hp1 & new & E1 & Hn).
+      split; [exact Hwf'|split; [exact Hp1|]]. rewrite E1. apply Forall_app; split; assumption.
+    - cbn [fst]. unfold Dream.set_state. destruct (same_shape R st cs); [|repeat split; assumption].
+      unfold wf in *. cbn. repeat split; try discriminate; assumption.
+    - cbn [fst]. unfold Dream.set_state_fn, wf in *. cbn. repeat split; try discriminate; assumption.
+    - cbn [fst]. unfold Dream.set_pdf_values. destruct (length vs =? length (chains R st)) eqn:El; [|repeat split; assumption].
+      apply Nat.eqb_eq in El. unfold wf in *. cbn. repeat split; auto.
+    - cbn [fst Dream.set_pdf_fn]. unfold wf in *. cbn. rewrite map_length. repeat split; auto.
+    - cbn [fst]. unfold Dream.clear_pdf, wf in *. cbn. repeat split; try discriminate; assumption.
+    - cbn [fst]. unfold Dream.clear_hist, wf in *. cbn. repeat split; auto.
+    - cbn [fst]. repeat split; assumption.
+  Qed.
+
+  Fixpoint edits_inside (ops : list (op R)) (st : dstate) (w : W) : Prop :=
+    match ops with
+    | [] => True
+    | o :: r => edit_inside o st /\ edits_inside r (fst (fst (apply_op o st w))) (snd (fst (apply_op o st w)))
+    end.
+
+  Lemma run_ops_indom ops : forall st w, indom st -> edits_inside ops st w -> indom (fst (fst (run_ops ops st w))).
+  Proof.
+    induction ops as [|o r IH]; intros st w Hc Hh; cbn [Dream.run_ops]; [exact Hc|].
+    destruct Hh as [Ho Hr].
+    pose proof (apply_op_indom o st w Hc Ho) as H1.
+    destruct (apply_op o st w) as [[st1 w1] e1]. cbn [fst snd] in *.
+    specialize (IH st1 w1 H1 Hr). destruct (run_ops r st1 w1) as [[st2 w2] e2]. exact IH.
+  Qed.
+
+  (* what the next run does after each edit: the cache is re-evaluated exactly when it is not marked valid *)
+  Lemma run_after_invalidation nb nc st w : chains R st <> [] -> pdf_ready R st = false ->
+    exists e, snd (run nb nc st w) = EvPdf (chains R st) (map pdf (chains R st)) :: e.
+  Proof.
+    intros Hne Hr. unfold Dream.run, Dream.init_pdf. destruct (chains R st) as [|c0 cs] eqn:Ec; [congruence|].
+    rewrite Hr. destruct (loop _ _ _ _ w) as [[st1 w1] e1]. cbn. eexists. reflexivity.
+  Qed.
+
+  Lemma run_ops_coherent_no_assert ops st w : coherent st -> Forall no_assert ops ->
+    coherent (fst (fst (run_ops ops st w))).
+  Proof. intros Hc Hn. apply run_ops_coherent; [exact Hc|apply no_assert_honest; exact Hn]. Qed.
+
+  (* which edits invalidate the cache *)
+  Lemma edits_invalidate st :
+    (forall cs, same_shape R st cs = true -> pdf_ready R (set_state R cs st) = false /\ chains R (set_state R cs st) = cs) /\
+    (forall cs, same_shape R st cs = false -> set_state R cs st = st) /\
+    (forall f, pdf_ready R (set_state_fn R f st) = false /\ chains R (set_state_fn R f st) = map f (chains R st)) /\
+    pdf_ready R (clear_pdf R st) = false /\
+    (forall vs, length vs = length (chains R st) -> pdf_ready R (set_pdf_values R vs st) = true /\ pdfv R (set_pdf_values R vs st) = vs) /\
+    pdf_ready R (clear_hist R st) = pdf_ready R st /\ hist R (clear_hist R st) = [] /\ pdfh R (clear_hist R st) = [] /\ acc R (clear_hist R st) = 0.
+  Proof.
+    repeat split; intros; unfold Dream.set_state, Dream.set_pdf_values; cbn;
+      try (rewrite H; reflexivity).
+    - apply Nat.eqb_eq in H. rewrite H. reflexivity.
+    - apply Nat.eqb_eq in H. rewrite H. reflexivity.
+  Qed.
+
   (* ---------------------------------------------------------------- flat sizes (num_dimensions) *)
   Lemma draw_jk_lt n rj rk : fixed = true -> 1 <= n ->
     let '(_, _, j, k) := draw_jk n rj rk in j < n /\ k < n.
